@@ -153,8 +153,11 @@ def run_case(case):
             neutral = False
             if rw == 0 or rh == 0:
                 neutral = True  # empty region: statement silent for non-empty blocks; code returns early
-                if not any(block_cells) and not (wrong_rows and rh > 0):
-                    neutral = True
+                if rh > 0 and not wrong_rows and not any(block_cells):
+                    # rows of zero cells, one empty block row each: an ordinary valid assignment that shows nothing - but a
+                    # region reaching past the last row still grows the array with blank rows
+                    neutral = False
+                    res.label("zero_column_region")
             elif wrong_rows:
                 must_raise = True
             else:
